@@ -697,7 +697,9 @@ def rule_rangeend(ctx, rep, rid="R-C05-rangeend"):
     if not bs:
         rep.error(rid, "lsp_project::map_label not found")
         return
-    b = bs[0]
+    # a helper that scans the text and returns (line, character) is part of map_label
+    from vlib.inline import inlined
+    b = inlined(ctx.prog, bs[0])
     ranges = [c for c in b.calls() if (c.callee or "") == "lsp_types::Range::new"]
     n = 0
     for rc in sorted(ranges, key=lambda c: (c.loc[0], c.loc[1])):
@@ -712,8 +714,19 @@ def rule_rangeend(ctx, rep, rid="R-C05-rangeend"):
         inst = "map_label|range#%d" % n
 
         def line_local(pc):
+            """the variable that holds the line: through moves and through a (line, character) pair that a helper returned"""
             p = op_place(pc.args[0])
-            return b.root(p)[0] if p is not None else None
+            for _ in range(6):
+                if p is None:
+                    return None
+                rt = b.root(p)
+                fs = [x for x in rt[1] if isinstance(x, list) and x[0] == "f"]
+                d = b.single_def(rt[0])
+                if len(fs) == 1 and str(fs[0][2]).isdigit() and d and d[0] == "stmt" and d[3][0] == "agg" and d[3][1].get("k") == "tuple":
+                    p = op_place(d[3][2][int(fs[0][2])])
+                    continue
+                return rt[0]
+            return None
         ls, le = line_local(pos[0]), line_local(pos[1])
         # is the end's line variable advanced in a loop body under a character test?
         adv = False
